@@ -273,11 +273,23 @@ fn short_path_variants<C: MlsConfig>(w: &World<C>, ai: usize, out: &mut Out) {
     let mut edits: Vec<(String, InsiderEdit, i64)> =
         (0..5usize).map(|k| (format!("insider-consistent-short-path{k}"), InsiderEdit::TruncatePathConsistent(k), k as i64)).collect();
     edits.push(("insider-long-path".into(), InsiderEdit::ExtendPath, -1));
-    let ph_edits: Vec<(String, InsiderEdit)> = vec![
+    // a key of the tree re-used inside a path that is otherwise consistent (parent hashes recomputed for the edited path, leaf
+    // re-signed): another member's leaf key, or the key of path node 1 again at node 0 (RFC 9420 12.4.2: no public key of the
+    // UpdatePath may appear in any node of the new ratchet tree)
+    let other_leaf_key: Option<Vec<u8>> = {
+        let t = a0.export_tree();
+        (0..t.nodes().len()).step_by(2).filter(|i| *i != 2 * sender_leaf as usize).find_map(|i| t.nodes()[i].as_ref().map(|n| n.public_key().to_vec()))
+    };
+    let mut ph_edits: Vec<(String, InsiderEdit)> = vec![];
+    if let Some(k) = other_leaf_key {
+        ph_edits.push(("insider-path-leaf-key0-consistent".into(), InsiderEdit::SetPathKeyConsistent(0, k.clone())));
+        ph_edits.push(("insider-path-leaf-key1-consistent".into(), InsiderEdit::SetPathKeyConsistent(1, k)));
+    }
+    ph_edits.extend(vec![
         ("insider-parent-hash-empty".into(), InsiderEdit::SetLeafParentHash(Some(vec![]), 0)),
         ("insider-parent-hash-prefix1".into(), InsiderEdit::SetLeafParentHash(None, 1)),
         ("insider-parent-hash-prefix31".into(), InsiderEdit::SetLeafParentHash(None, 31)),
-    ];
+    ]);
     for (label, edit) in ph_edits {
         let Ok(m2) = a0.verif_resign_commit(&cm0, &edit) else { continue };
         let b2 = m2.to_bytes().unwrap();
@@ -322,6 +334,87 @@ fn short_path_variants<C: MlsConfig>(w: &World<C>, ai: usize, out: &mut Out) {
 
 /// Trees with blank subtrees (filtered direct-path nodes): a larger group, some members removed, parents repopulated by
 /// empty commits of two members, then the insider variants of every remaining member.
+/// Forged ratchet trees: member `a` signs a GroupInfo for an EDITED copy of its tree (tree hash in the context recomputed, so
+/// tree and GroupInfo match); an observer and an external joiner, who have nothing but tree validation to go by, must refuse
+/// every edit and accept the genuine one.
+fn forged_tree_cases<C: MlsConfig>(a: &Group<C>, joiner: &mls_rs::Client<C>, out: &mut Out) {
+    use mls_rs::external_client::ExternalClient;
+    use mls_rs::identity::basic::BasicIdentityProvider;
+    use mls_rs::verif::insider::TreeEdit;
+    let edits: Vec<(&str, TreeEdit)> = vec![
+        ("genuine", TreeEdit::Nothing),
+        ("duplicate-unmerged", TreeEdit::DuplicateUnmerged),
+        ("unsorted-unmerged", TreeEdit::UnsortedUnmerged),
+        ("unmerged-blank-leaf", TreeEdit::UnmergedBlankLeaf),
+        ("unmerged-outside-subtree", TreeEdit::UnmergedOutsideSubtree),
+        ("unmerged-not-inherited", TreeEdit::UnmergedNotInherited),
+        ("trailing-blanks", TreeEdit::TrailingBlanks),
+        ("last-leaf-blank", TreeEdit::LastLeafBlank),
+        ("parent-key-is-leaf-key", TreeEdit::ParentKeyIsLeafKey),
+        ("duplicate-leaf", TreeEdit::DuplicateLeaf),
+        ("swap-leaves", TreeEdit::SwapLeaves),
+        ("blank-parent", TreeEdit::BlankParent),
+        ("parent-hash-changed", TreeEdit::ParentHashChanged),
+    ];
+    for (label, e) in edits {
+        for in_ext in [true, false] {
+            let Ok(Some((gi, tree_bytes))) = a.verif_group_info_for_edited_tree(&e, in_ext) else {
+                out.cover.insert(format!("forged-tree:{label}:not-applicable"));
+                continue;
+            };
+            let tree_of = |b: &[u8]| mls_rs::group::ExportedTree::from_bytes(b).ok();
+            // observer
+            out.variants += 1;
+            *out.by_kind.entry(format!("forged-tree-{label}")).or_default() += 1;
+            let obs = ExternalClient::builder().crypto_provider(mls_rs_crypto_rustcrypto::RustCryptoProvider::default()).identity_provider(BasicIdentityProvider).build();
+            let t1 = if in_ext { None } else { tree_of(&tree_bytes) };
+            if !in_ext && t1.is_none() {
+                out.cover.insert(format!("forged-tree:{label}:tree-does-not-decode"));
+                continue;
+            }
+            let r = std::panic::catch_unwind(std::panic::AssertUnwindSafe(|| obs.observe_group(gi.clone(), t1, None)));
+            match (r, label) {
+                (Err(_), _) => out.fail("C03", format!("observe_group panics on a GroupInfo with tree edit {label}")),
+                (Ok(Ok(_)), "genuine") => {}
+                // (a tree with one more blank parent can be a VALID tree — RFC 9420 7.9.2 only asks every non-blank parent to have a
+            // matching child — that the signer vouches for: nothing to refuse; counted, not judged)
+            (Ok(Ok(_)), "blank-parent") => {
+                out.cover.insert("forged-tree:blank-parent:accepted-as-valid-tree".into());
+            }
+            (Ok(Ok(_)), _) => out.fail("C03", format!("an observer accepted a member-signed GroupInfo whose ratchet tree has the edit {label} (tree {})", if in_ext { "in the extension" } else { "out of band" })),
+                (Ok(Err(e)), "genuine") => out.fail("C03", format!("an observer rejected the genuine GroupInfo built by the hook: {}", err_class(&e))),
+                (Ok(Err(e)), _) => {
+                    out.rejected += 1;
+                    *out.err_kinds.entry(format!("forged-tree-{label}:{}", err_class(&e))).or_default() += 1;
+                }
+            }
+            // external joiner
+            out.variants += 1;
+            let t2 = if in_ext { None } else { tree_of(&tree_bytes) };
+            let r = std::panic::catch_unwind(std::panic::AssertUnwindSafe(|| {
+                let b = joiner.external_commit_builder()?;
+                let b = match t2 {
+                    Some(t) => b.with_tree_data(t),
+                    None => b,
+                };
+                b.build(gi.clone())
+            }));
+            match (r, label) {
+                (Err(_), _) => out.fail("C03", format!("external commit builder panics on a GroupInfo with tree edit {label}")),
+                (Ok(Ok(_)), "genuine") => {}
+                (Ok(Ok(_)), "blank-parent") => {}
+            (Ok(Ok(_)), _) => out.fail("C03", format!("an external joiner accepted a member-signed GroupInfo whose ratchet tree has the edit {label} (tree {})", if in_ext { "in the extension" } else { "out of band" })),
+                (Ok(Err(e)), "genuine") => out.fail("C03", format!("an external joiner rejected the genuine GroupInfo built by the hook: {}", err_class(&e))),
+                (Ok(Err(e)), _) => {
+                    out.rejected += 1;
+                    *out.err_kinds.entry(format!("forged-tree-{label}:{}", err_class(&e))).or_default() += 1;
+                }
+            }
+        }
+    }
+    out.cover.insert("forged-tree".into());
+}
+
 fn sparse_tree_scenario<C: MlsConfig>(rng: &mut Rng, mk: Mk<C>, out: &mut Out) {
     let n = rng.range(5, 9) as usize;
     let Ok(Sc { mut w }) = setup(rng, mk, n, false) else { return };
@@ -356,8 +449,30 @@ fn sparse_tree_scenario<C: MlsConfig>(rng: &mut Rng, mk: Mk<C>, out: &mut Out) {
         }
     }
     out.cover.insert(format!("sparse:n={n}:removed={removals}"));
-    for a in alive {
+    for a in alive.iter().copied() {
         short_path_variants(&w, a, out);
+    }
+    // Add-only commits (no update path) leave the new leaves unmerged at their ancestors: trees with unmerged lists and, if a
+    // removed leaf stays vacant, blanks — the forged-tree cases that need them apply here
+    let adds = rng.range(1, 2) as usize;
+    let mut kps = vec![];
+    for k in 0..adds {
+        let x = new_client(&mut w, mk, &format!("X{k}"), false, 3);
+        if let Ok(kp) = w.members[x].client.generate_key_package_message(Default::default(), Default::default(), None) {
+            kps.push(kp);
+        }
+    }
+    let (_, o) = w.with_group(0, |g| {
+        let mut b = g.commit_builder();
+        for kp in kps {
+            b = b.add_member(kp)?;
+        }
+        b.build()
+    });
+    if o.is_some() {
+        w.with_group(0, |g| g.apply_pending_commit());
+        let j = new_client(&mut w, mk, "J", false, 3);
+        forged_tree_cases(w.group(0), &w.members[j].client, out);
     }
 }
 
@@ -525,7 +640,14 @@ pub fn scenario<C: MlsConfig>(rng: &mut Rng, mk: Mk<C>, out: &mut Out, exhaustiv
             use mls_rs::{CipherSuite, CipherSuiteProvider, CryptoProvider};
             mls_rs_crypto_rustcrypto::RustCryptoProvider::default().cipher_suite_provider(CipherSuite::from(1u16)).unwrap().kem_generate().unwrap().1.to_vec()
         };
+        // the current leaf key of another member (C): an authentic path leaf carrying it is not unique in the tree
+        let c_leaf_key = {
+            let t = w.group(2).export_tree();
+            let idx = w.group(2).current_member_index() as usize;
+            t.nodes().get(2 * idx).and_then(|n| n.as_ref()).map(|n| n.public_key().to_vec()).unwrap_or_default()
+        };
         let edits: Vec<(&str, InsiderEdit)> = vec![
+            ("insider-leaf-duplicate-key-resigned", InsiderEdit::SetLeafKeyResigned(c_leaf_key.clone())),
             ("insider-resign-only", InsiderEdit::Nothing),
             ("insider-path-empty", InsiderEdit::TruncatePath(0)),
             ("insider-path-short1", InsiderEdit::TruncatePath(1)),
@@ -563,6 +685,7 @@ pub fn scenario<C: MlsConfig>(rng: &mut Rng, mk: Mk<C>, out: &mut Out, exhaustiv
         }
         out.cover.insert("insider".into());
     }
+    forged_tree_cases(w.group(0), &w.members[newcomer].client, out);
     // ---- joiner side: Welcome, GroupInfo --------------------------------------------------------------------------------
     if let Some(wm) = o.welcome_messages.first() {
         let wb = wm.to_bytes().unwrap();
